@@ -5,6 +5,7 @@ mod c12;
 mod c15;
 mod c16;
 mod c17;
+mod c18;
 mod check;
 mod runner;
 mod streams;
@@ -175,6 +176,7 @@ fn get_check(id: &str) -> Option<&'static dyn check::Check> {
         "C15" => Some(&c15::C15),
         "C16" => Some(&c16::C16),
         "C17" => Some(&c17::C17),
+        "C18" => Some(&c18::C18),
         _ => None,
     }
 }
